@@ -42,7 +42,12 @@ def render_file(lang: str, funcs: list[dict], salt: int) -> tuple[str, list[dict
             body, hdr = R.RENDER[lang](name, f["toks"], forms[(i + salt) % len(forms)])
         except R.Unsupported:
             continue
-        meta.append({"toks": f["toks"], "line": len(lines) + hdr + 1, "name": name, "form": forms[(i + salt) % len(forms)]})
+        compact = lang != "python" and hdr == 0 and (i + salt) % 4 == 3
+        if compact:
+            # the whole function on ONE line (a brace language does not need a line per nesting level)
+            body = [" ".join(l.strip() for l in body)]
+        meta.append({"toks": f["toks"], "line": len(lines) + hdr + 1, "name": name, "form": forms[(i + salt) % len(forms)],
+                     "compact": compact})
         lines += body + ["", ""]
     return "\n".join(lines) + "\n", meta
 
